@@ -1,11 +1,13 @@
 (* C14 — JSONPath and script text forms round-trip (proved part: string literals).
    jp.AppendString (escape classes from the generated jp_jMap) followed by the parser's
    readStr/readEscStr is the identity on every string of bytes below 0x80 - quotes, backslashes
-   and control characters included - for both quote characters, in any context that follows.
+   and control characters included - for both quote characters, in any context that follows;
+   and on EVERY byte string up to the replacement of invalid UTF-8 by U+FFFD (Jp/StrU.v: the
+   utf8.DecodeRune branch with its escapes for U+2028, U+2029 and invalid bytes).
    The expression- and equation-level round trips (printed text parses, prints identically and
    evaluates as the ORIGINAL tree denotes in Jp/Expr.v) are decided by correspondence. *)
 From Coq Require Import Init.Byte ZArith List Bool.
-Require Import Ojg.Base.Bytes Ojg.Jp.Str.
+Require Import Ojg.Base.Bytes Ojg.Json.Writer Ojg.Jp.Str Ojg.Jp.StrU.
 Import ListNotations.
 
 Theorem C14_string_roundtrip : forall s term k,
@@ -14,3 +16,22 @@ Theorem C14_string_roundtrip : forall s term k,
 Proof. exact string_roundtrip. Qed.
 
 Print Assumptions C14_string_roundtrip.
+
+
+(* every byte string, either quote: the printed literal reads back as the sanitized string *)
+Theorem C14_string_roundtrip_all : forall s term k,
+  (term = x22 \/ term = x27) ->
+  read_str term (enc_body_u (length s) s ++ term :: k) = Some (sanitize s, k).
+Proof. exact string_roundtrip_all. Qed.
+
+(* on ASCII strings this is the function of the first theorem *)
+Theorem C14_ascii_same_encoding : forall s, Forall ascii s -> enc_body_u (length s) s = enc_body s.
+Proof. intros s H. apply enc_body_u_ascii; [apply le_n | exact H]. Qed.
+
+Example C14_string_roundtrip_all_example :
+  let s := [x61; x27; xc3; xa9; xff; xe2; x80; xa8; x5c; xf0; x9f; x98; x80] in
+  read_str x27 (enc_body_u (length s) s ++ [x27; x5d]) =
+    Some ([x61; x27; xc3; xa9; xef; xbf; xbd; xe2; x80; xa8; x5c; xf0; x9f; x98; x80], [x5d]).
+Proof. vm_compute. reflexivity. Qed.
+
+Print Assumptions C14_string_roundtrip_all.
